@@ -9,6 +9,7 @@ import (
 	"strings"
 
 	"github.com/AdguardTeam/AdGuardHome/internal/aghalg"
+	"github.com/AdguardTeam/golibs/netutil"
 )
 
 // macKey contains MAC as byte array of 6, 8, or 20 bytes.
@@ -286,6 +287,13 @@ func (ci *index) findByIP(ip netip.Addr) (c *Persistent, found bool) {
 
 // findByMAC finds persistent client by MAC.
 func (ci *index) findByMAC(mac net.HardwareAddr) (c *Persistent, found bool) {
+	// Unlike the MACs of persistent clients, mac may come from a source that
+	// doesn't validate it, e.g. a DHCPv6 lease.  No persistent client can have
+	// such a MAC, so don't let [macToKey] panic.
+	if netutil.ValidateMAC(mac) != nil {
+		return nil, false
+	}
+
 	k := macToKey(mac)
 	uid, found := ci.macToUID[k]
 	if found {
